@@ -1,4 +1,39 @@
-// engine K harnesses for module hook 'fp61' (included under cfg(kani) by /repo)
+// engine K — ff/prime_field.rs, `mod fp61*`: Fp61BitPrime (property C08). Shared text: kani/field_common.rs
+include!(concat!(env!("IPA_VERIF_DIR"), "/kani/field_common.rs"));
+field_harnesses!(Fp61BitPrime, u64, u128, 2_305_843_009_213_693_951, 61, cadical);
+
+/// Fp61: `modulo_prime_base` delegates to `modulo_prime_u128` (used through its contract)
+#[kani::proof_for_contract(Fp61BitPrime::modulo_prime_base)]
+#[kani::stub_verified(Fp61BitPrime::modulo_prime_u128)]
+#[kani::solver(z3)]
+fn reduce_base_contract() {
+    let v: u128 = kani::any();
+    kani::cover!(v >= P);
+    kani::cover!(v == u128::MAX);
+    let r = Fp61BitPrime::modulo_prime_base(v);
+    #[cfg(test)]
+    assert!(reduce_base_post(v, &r));
+    let _ = r;
+}
+
+/// Fp61-only entry points
+#[kani::proof_for_contract(Fp61BitPrime::const_truncate)]
+fn const_truncate_contract() {
+    let v: u64 = kani::any();
+    kani::cover!(v == u64::MAX);
+    let r = Fp61BitPrime::const_truncate(v);
+    #[cfg(test)]
+    assert!(reduce_post(u128::from(v), &r));
+    let _ = r;
+}
+
+#[kani::proof]
+fn from_bit_total() {
+    let b: bool = kani::any();
+    kani::cover!(b);
+    let r = Fp61BitPrime::from_bit(b);
+    assert!(canon(&r) && val(&r) == u128::from(b));
+}
 
 #[cfg(test)]
 include!(concat!(env!("IPA_VERIF_DIR"), "/.build/playback/fp61.rs"));
